@@ -152,6 +152,8 @@ func (m *vMon) ReassemblyComplete(g []*auparse.AuditMessage) {
 	// C10 (iii): cause of delivery outside Close
 	if !m.inClose && m.timeoutInf {
 		vAssert(vOr(in.complete, m.peakLive > m.maxInFlight), "C10/delivered-without-cause")
+		// the same fact seen from C19: with an effectively infinite timeout nothing is delivered for time
+		vAssert(vOr(in.complete, m.peakLive > m.maxInFlight), "C19/flushed-although-timeout-effectively-infinite")
 	}
 	// C19: never delivered on account of time before the timeout has elapsed
 	if !m.inClose && m.symClock {
@@ -242,8 +244,12 @@ func VH_Reassembler() {
 		timeout, m.toSec, m.toNsec = 2*time.Second, 2, 0
 	case 5:
 		timeout, m.toSec, m.toNsec = -1500*time.Millisecond, -2, 500000000
+	case 6:
+		timeout = time.Duration(1<<63 - 1) // the largest Duration: still "never", not "always"
+	case 7:
+		timeout = 250 * 365 * 24 * time.Hour // now + timeout no longer fits an int64 of nanoseconds since 1970
 	}
-	if vParam("timeout_mode", 0) != 0 {
+	if tm := vParam("timeout_mode", 0); tm != 0 && tm < 6 {
 		m.symClock, m.timeoutInf = true, false
 	}
 	r, err := NewReassembler(maxInFlight, timeout, m)
